@@ -401,7 +401,10 @@ func intrParseUint(e *Exec, caller *Frame, fn *ssa.Function, args []Value) Value
 				// range check against 2^bitSize-1
 				lim := e.ctx.Const(v.w, mask(bs))
 				if !e.Branch(e.ctx.Cmp(OUle, v, lim)) {
-					return e.callSSA(caller, fn, args, nil)
+					// documented: the maximum value of the size and a *NumError wrapping ErrRange
+					// (modelled as a non-nil error with that text; executing strconv's digit loop on
+					// symbolic digits makes multiplication-heavy queries that time out)
+					return TupleV{e.ctx.Const(64, mask(bs)), e.newErrorString(e.constStr("strconv.ParseUint: value out of range"))}
 				}
 			}
 			return TupleV{res, IfaceV{}}
